@@ -270,6 +270,9 @@ func (tb *TB) Ite(c, a, b *Term) *Term {
 	if a.W != b.W {
 		panic(fmt.Sprintf("Ite width mismatch %d %d", a.W, b.W))
 	}
+	if c.Op == OpNot {
+		return tb.Ite(c.Args[0], b, a)
+	}
 	if a.W == 0 {
 		if a.IsTrue() && b.IsFalse() {
 			return c
@@ -325,6 +328,14 @@ func (tb *TB) Eq(a, b *Term) *Term {
 		return tb.Ite(b.Args[0], tb.Eq(b.Args[1], a), tb.Eq(b.Args[2], a))
 	}
 	return tb.mk(&Term{Op: OpEq, Args: []*Term{a, b}})
+}
+
+// Mention returns a valid formula that mentions t (so that its variables are declared to the solver).
+func (tb *TB) Mention(t *Term) *Term {
+	if t.W == 0 {
+		return tb.mk(&Term{Op: OpOr, Args: []*Term{t, tb.mk(&Term{Op: OpNot, Args: []*Term{t}})}})
+	}
+	return tb.mk(&Term{Op: OpEq, Args: []*Term{t, t}})
 }
 
 func (tb *TB) Ne(a, b *Term) *Term { return tb.Not(tb.Eq(a, b)) }
@@ -482,6 +493,13 @@ func (tb *TB) Bin(op Op, a, b *Term) *Term {
 			return a
 		}
 	}
+	switch op {
+	case OpAdd, OpMul, OpBAnd, OpBOr, OpBXor:
+		// canonical argument order for commutative operators: constants last, otherwise by id
+		if a.IsConst() || (!b.IsConst() && a.ID > b.ID) {
+			a, b = b, a
+		}
+	}
 	return tb.mk(&Term{Op: op, W: w, Args: []*Term{a, b}})
 }
 
@@ -634,6 +652,7 @@ type Printer struct {
 	tb       *TB
 	Vars     []*Term
 	roots    []*Term
+	parent   *Printer
 }
 
 func NewPrinter(tb *TB) *Printer {
@@ -641,8 +660,42 @@ func NewPrinter(tb *TB) *Printer {
 }
 
 // ref returns the textual reference for t, emitting definitions as needed.
+func (p *Printer) lookup(id int) (string, bool) {
+	for q := p; q != nil; q = q.parent {
+		if s, ok := q.defined[id]; ok {
+			return s, true
+		}
+	}
+	return "", false
+}
+
+func (p *Printer) ufDeclared(name string) bool {
+	for q := p; q != nil; q = q.parent {
+		if q.ufDecl[name] {
+			return true
+		}
+	}
+	return false
+}
+
+// Child returns a printer for a nested solver scope: it sees the parent's definitions.
+func (p *Printer) Child() *Printer {
+	c := NewPrinter(p.tb)
+	c.parent = p
+	return c
+}
+
+// AllVars lists the variables declared in this printer and its ancestors.
+func (p *Printer) AllVars() []*Term {
+	var out []*Term
+	for q := p; q != nil; q = q.parent {
+		out = append(out, q.Vars...)
+	}
+	return out
+}
+
 func (p *Printer) ref(t *Term) string {
-	if s, ok := p.defined[t.ID]; ok {
+	if s, ok := p.lookup(t.ID); ok {
 		return s
 	}
 	// iterative post-order to avoid deep recursion
@@ -653,14 +706,14 @@ func (p *Printer) ref(t *Term) string {
 	stack := []fr{{t, 0}}
 	for len(stack) > 0 {
 		f := &stack[len(stack)-1]
-		if _, ok := p.defined[f.t.ID]; ok {
+		if _, ok := p.lookup(f.t.ID); ok {
 			stack = stack[:len(stack)-1]
 			continue
 		}
 		if f.i < len(f.t.Args) {
 			a := f.t.Args[f.i]
 			f.i++
-			if _, ok := p.defined[a.ID]; !ok {
+			if _, ok := p.lookup(a.ID); !ok {
 				stack = append(stack, fr{a, 0})
 			}
 			continue
@@ -668,7 +721,8 @@ func (p *Printer) ref(t *Term) string {
 		p.emit(f.t)
 		stack = stack[:len(stack)-1]
 	}
-	return p.defined[t.ID]
+	r, _ := p.lookup(t.ID)
+	return r
 }
 
 func (p *Printer) emit(t *Term) {
@@ -686,7 +740,7 @@ func (p *Printer) emit(t *Term) {
 	var e strings.Builder
 	args := make([]string, len(t.Args))
 	for i, a := range t.Args {
-		args[i] = p.defined[a.ID]
+		args[i], _ = p.lookup(a.ID)
 	}
 	switch t.Op {
 	case OpExtract:
@@ -697,7 +751,7 @@ func (p *Printer) emit(t *Term) {
 		fmt.Fprintf(&e, "((_ sign_extend %d) %s)", t.Hi, args[0])
 	case OpApp:
 		n := smtName(t.Name)
-		if !p.ufDecl[t.Name] {
+		if !p.ufDeclared(t.Name) {
 			p.ufDecl[t.Name] = true
 			sig := p.tb.UF[t.Name]
 			var ss []string
